@@ -177,7 +177,8 @@ def run_history(history):
                 last_sid = None      # the canaries applied their own (default) options
         res["plog"] = plog
         res["settings_as_owned"] = _owned(sess)
-        if not res["settings_as_owned"] and sess.spec["kind"] != "cli" and res["status"] in ("ok", "refused") and canaries_left > 0:
+        cli_sets_options = sess.spec["kind"] == "cli" and any(str(a).lstrip("-") in seams.OPTION_DEFAULTS for a in sess.spec.get("argv", []))
+        if not res["settings_as_owned"] and not cli_sets_options and res["status"] in ("ok", "refused") and canaries_left > 0:
             # Polar itself changed a global option during this step.  What a user who set the options once would see next:
             # a small fixed analysis performed right now, without touching the options again.
             canaries_left -= 1
